@@ -51,7 +51,7 @@ P("C22",
   design_ref="DESIGN.md §3 C22",
   technique="Coq proof over an exact model of the DRAM bank kernels (arbitrary scheduler oracle, arbitrary timing table and tFAW) + exact "
             "model/implementation tie on the kernels and on whole runs + verified acceptor on real command streams; preset tables regenerated from the real builder on every run",
-  level_text="PARTIAL (completion is sampled). Proved, closed, for every timing table, every tFAW and every oracle: c22_state_machine_legal with its readings "
+  level_text="PARTIAL (completion is sampled; c22_completion_partial proves the bank-kernel part of liveness: a ready offer is issued at once, and a queue entry that is the sole persistent offer is issued as its column command after finitely many ticks, after ANY history and for ANY geometry — the scheduler, queue admission, refresh and the respond stage are named as missing). Proved, closed, for every timing table, every tFAW and every oracle: c22_state_machine_legal with its readings "
              "c22_row_activated_before_access and c22_precharged_before_activate, c22_min_separation (ANY two issued commands, any table entry of the relation "
              "same bank / other bank of the group / same rank / other rank), c22_tfaw (four-activate window), c22_init_state + c22_flat_index_bijection (the state Build installs is well-formed, all closed, history-free and bankFlatIndex is a bijection onto the nr*nbg*nb slots, for ARBITRARY geometry) and hence c22_clean_start (legal + all separations + tFAW for every clean start, no computed side condition), c22_acceptor_sound (the boolean evaluators used on "
              "observed streams mean the same declarative statements), c22_run_is_trace, c22_model_agreement_implies_property (for oracle runs of the real kernels from a clean state, agreement with the model implies the property predicate on the observed stream). Tie: (1) the real kernels (tickBanks, getReadyCommand incl. tFAW, "
